@@ -81,7 +81,7 @@ def _exceeds_hint(body, operand):
         return bool(sp and sp[0].endswith("size_hint") and sp[2] == ".0")
 
     def const(k):
-        m = _re.match(r"^c:(\d+):usize$", k)
+        m = _re.match(r"^c:(\d+):[iu](size|\d+)$", k)
         return int(m.group(1)) if m else None
 
     def le_h(k):
@@ -90,8 +90,10 @@ def _exceeds_hint(body, operand):
         sp = _split_top(k)
         if not sp or sp[2] not in ("", ".0") or len(sp[1]) != 2:
             return False
-        if sp[0] == "Div":
+        if sp[0] in ("Div", "Shr"):
             d = const(sp[1][1])
+            if d is not None and sp[0] == "Shr":
+                d = 2 ** d
             if d is None or d < 1:
                 return False
             if is_h(sp[1][0]):
